@@ -26,8 +26,8 @@ def rfcNorm : Str → Str
           let d := (unhex a <<< 4) ||| unhex b
           if isUnreserved d then d :: rfcNorm rest'
           else 37 :: upperhex (d >>> 4) :: upperhex (d &&& 15) :: rfcNorm rest'
-        else 37 :: 50 :: 53 :: rfcNorm rest
-      | _ => 37 :: 50 :: 53 :: rfcNorm rest
+        else 37 :: 50 :: 53 :: a :: b :: rfcNorm rest'     -- malformed escape (never accepted by the server)
+      | _ => 37 :: 50 :: 53 :: rest
     else if validEncodedByte c then c :: rfcNorm rest
     else 37 :: upperhex (c >>> 4) :: upperhex (c &&& 15) :: rfcNorm rest
 
